@@ -323,7 +323,7 @@ impl Report {
 
         let mut known_summary = serde_json::Map::new();
         for (k, fs_) in &by_known {
-            let first = fs_[0];
+            let first = fs_.iter().find(|f| !f.replay.is_empty()).copied().unwrap_or(fs_[0]);
             let path = replay_dir.join(format!("known-{}.txt", sanitize(k)));
             let _ = fs::write(&path, &first.replay);
             let text = known.lookup(&self.property, k).unwrap().text.clone();
@@ -352,7 +352,12 @@ impl Report {
         // Distinct violations: group by (key, what) so the output stays readable.
         let mut seen: BTreeSet<(Option<String>, String)> = BTreeSet::new();
         let mut n_files = 0;
+        let any_replay = violations.iter().any(|v| !v.replay.is_empty());
         for v in &violations {
+            // engines may keep the full replay text only for the first cases of a class
+            if v.replay.is_empty() && any_replay {
+                continue;
+            }
             let sig = (v.key.clone(), v.what.clone());
             if !seen.insert(sig) {
                 continue;
